@@ -1,6 +1,7 @@
 (* Properties_C02.v — property C02: determinism. Statements only; each is closed by [exact]. *)
 From GC Require Import Base Model_Inventory Model_Walk Model_Determ Proofs_Determ Review_MapSites.
-From GCgen Require Import MapRangeSites.
+From GCgen Require Import MapRangeSites StateInventory.
+From GC Require Import Review_State.
 From Coq Require Import Permutation.
 
 (* the checker list handed to every front-end does not depend on the iteration order of the registry map:
@@ -116,6 +117,16 @@ Print Assumptions C02_dup_import_site_absent.
 Theorem C02_dup_import_fixed_det : forall imps, dup_import_run_fixed imps = dup_import_run (dup_groups imps).
 Proof. intros. exact eq_refl. Qed.
 Print Assumptions C02_dup_import_fixed_det.
+
+(* package-level variables of checkers/, checkers/internal/*, linter/ that function bodies write outside constructors are shared by
+   every checker instance and every goroutine of a run (the CLI runs the checkers of a file in parallel): message texts built in
+   such a variable differ from run to run. Every one must be reviewed (Review_State.v, pseudo-struct "package-level variables");
+   the harness additionally enables the checkers that reach such a write together on a dense file (C02/cli/shared-package-variable) *)
+Eval vm_compute in (unreviewed reviewed_state (filter (fun s => String.eqb (s_name s) "package-level variables") state_inventory)).
+Theorem C02_package_level_state_reviewed :
+  forallb (fun s => negb (String.eqb (s_name s) "package-level variables") || struct_reviewed reviewed_state s) state_inventory = true.
+Proof. vm_compute. reflexivity. Qed.
+Print Assumptions C02_package_level_state_reviewed.
 
 Theorem C02_inventory_sane :
   (8 <=? N.of_nat (length map_range_sites))%N = true
